@@ -2,7 +2,7 @@
 From Coq Require Import Permutation.
 From SC Require Import Lib.Prelude Lib.Int Lib.Host Model.Nft Run.NftCommon Proofs.NftMaps Proofs.NftFrame
   Proofs.NftInv Proofs.NftCons Proofs.NftOwn Proofs.NftSim Proofs.NftCard Proofs.NftEnum Run.C10 Proofs.C10Card
-  Proofs.C10Sim Proofs.C10Monitor.
+  Proofs.C10Sim Proofs.C10Live Proofs.C10Monitor.
 Local Open Scope N_scope.
 
 (* the quantifier of the property along a call sequence: explicit mint ids are unused, and the
@@ -293,3 +293,31 @@ Theorem enum_refines_map c now0 cs :
   (forall a l, NoDup l -> (forall i, abs i = Some a -> In i l) ->
      balance s a = N.of_nat (length (filter (fun i => oaddr_eqb (abs i) (Some a)) l))).
 Proof. apply refines_map. Qed.
+
+
+(* ---------- progress in reachable states ---------- *)
+Lemma has_auth_of_In auths a : In a auths -> has_auth auths a = true.
+Proof. intros H. unfold has_auth. apply existsb_exists. exists a. split; [exact H | apply N.eqb_refl]. Qed.
+
+Theorem owner_can_transfer fl c now0 cs auths from to id :
+  fresh_run fl c (init now0) cs = true ->
+  let s := run fl c (init now0) cs in
+  owner_of fl c s id = Some from -> In from auths -> balance s to + 1 <= MAXU32N ->
+  exists s', exec fl c s (Transfer auths from to id) = Ok (s', None).
+Proof.
+  intros Hf. cbv zeta. intros Ho Ha Hroom.
+  pose proof (run_sg_sim10 fl c cs _ _ (sim10_init fl now0) Hf) as Hs. rewrite run_sg_state in Hs.
+  eapply owner_transfer_progress; [exact Hs | apply has_auth_of_In; exact Ha | | exact Hroom].
+  rewrite <- (own_of fl c _ _ (proj2 (proj1 Hs))). exact Ho.
+Qed.
+Theorem owner_can_burn fl c now0 cs auths from id :
+  fresh_run fl c (init now0) cs = true ->
+  let s := run fl c (init now0) cs in
+  owner_of fl c s id = Some from -> In from auths ->
+  exists s', exec fl c s (Burn auths from id) = Ok (s', None).
+Proof.
+  intros Hf. cbv zeta. intros Ho Ha.
+  pose proof (run_sg_sim10 fl c cs _ _ (sim10_init fl now0) Hf) as Hs. rewrite run_sg_state in Hs.
+  eapply owner_burn_progress; [exact Hs | apply has_auth_of_In; exact Ha |].
+  rewrite <- (own_of fl c _ _ (proj2 (proj1 Hs))). exact Ho.
+Qed.
